@@ -122,8 +122,8 @@ var vC06Stmts = []string{
 	// signed literals wherever a number is read: indexes, positions, bounds
 	"select key, split(value, ',')[-1] where key >= ''", "select key, list(1, 2)[-A] where key >= ''", "select key, json(value)['x'][-1] where key >= ''",
 	"select key, substr(value, -A, -B) where key >= ''", "select key, substr(value, -1, A) where key >= ''", "select * where int(value) > -9223372036854775808",
-	"select * where int(value) / -A > -B", "select key, int_list(1, 2)[-0] where key >= ''", "select * where int(value) between -A and -B",
-	"select * where key >= '' limit -1", "select key, float_list(-1.5, -A)[1] where key >= ''", "select key, -A - -B, -A.5 * -B where key >= ''",
+	"select * where int(value) / -2 > -B", "select key, int_list(1, 2)[-0] where key >= ''", "select * where int(value) between -A and 9",
+	"select * where key >= '' limit -1", "select key, float_list(-1.5, -A)[1] where key >= ''", "select key, -A - -1, -1.5 * -2, -0.5 + A where key >= ''",
 	// aggregate parameters outside their domain
 	"select quantile(strlen(value), 0 - 0.5) where key >= ''", "select quantile(strlen(value), A - B) where key >= ''",
 	"select quantile(strlen(value), A) where key >= ''", "select quantile(strlen(value), 0.5 * A) where key >= ''",
